@@ -65,7 +65,18 @@ func tokenRef(r *vlib.Rand, dir, tok string, i int) string {
 
 func c11Config(r *vlib.Rand, dir string, forceEmpty bool) c11Cfg {
 	var cfg c11Cfg
-	mkTok := func(tag string) string { return fmt.Sprintf("%s-%x", tag, r.U64()) }
+	mkTok := func(tag string) string {
+		t := fmt.Sprintf("%s-%x", tag, r.U64())
+		// tokens of 63/64/65/100/300 bytes: comparison buffers, hash block sizes
+		if r.Chance(0.35) {
+			n := vlib.Pick(r, []int{63, 64, 65, 100, 300})
+			for len(t) < n {
+				t += fmt.Sprintf("%x", r.U64())
+			}
+			t = t[:n]
+		}
+		return t
+	}
 	nGlobal := r.Intn(4)
 	if forceEmpty {
 		nGlobal = 0
@@ -135,6 +146,9 @@ func c11Creds(r *vlib.Rand, valid []string, foreign []string) []cred {
 			cred{Name: "suffix", Values: []string{"Bearer " + v[1:]}, Token: v[1:]},
 			cred{Name: "plus_one_char", Values: []string{"Bearer " + v + "x"}, Token: v + "x"},
 			cred{Name: "case_variant", Values: []string{"Bearer " + strings.ToUpper(v)}, Token: strings.ToUpper(v)},
+			cred{Name: "last_char_changed", Values: []string{"Bearer " + v[:len(v)-1] + "~"}, Token: v[:len(v)-1] + "~"},
+			cred{Name: "first_char_changed", Values: []string{"Bearer ~" + v[1:]}, Token: "~" + v[1:]},
+			cred{Name: "doubled", Values: []string{"Bearer " + v + v}, Token: v + v},
 			cred{Name: "basic_scheme", Values: []string{"Basic " + base64.StdEncoding.EncodeToString([]byte(v+":"))}},
 			cred{Name: "basic_with_token", Values: []string{"Basic " + v}},
 			cred{Name: "lowercase_scheme", Values: []string{"bearer " + v}, Token: v, Ambiguous: true},
